@@ -52,15 +52,12 @@ Section Base58Xmr.
       Ok (full ++ pad e (b58enc (slice (cnt * dec_max) (cnt * dec_max + last) b)))
     else Ok full.
 
-  (* One block of the decoder.
-     [dec_block] is the decoder the format demands (and the announced repair of defect F2): a block whose
-     Base58 value does not fit the d bytes it stands for (value >= 256^d) is rejected with ValueError.
-     [dec_block_current] is the code as it is today: no such check, the value is silently truncated. *)
+  (* One block of the decoder: Base58-decode, then __UnPad, which raises ValueError when the decoded
+     value needs more than unpad_len bytes (len(dec_bytes.lstrip(b"\x00")) > unpad_len) and otherwise
+     keeps the last unpad_len bytes. *)
   Definition dec_block (d : nat) (t : list N) : res (list N) :=
     dec <- b58dec t ;;
-    if be_to_int dec <? 256 ^ N.of_nat d then Ok (unpad d dec) else Err ValueError.
-  Definition dec_block_current (d : nat) (t : list N) : res (list N) :=
-    dec <- b58dec t ;; Ok (unpad d dec).
+    if (d <? length (lstrip 0 dec))%nat then Err ValueError else Ok (unpad d dec).
 
   Section Decoder.
     Variable blk : nat -> list N -> res (list N).
@@ -87,7 +84,6 @@ Section Base58Xmr.
   End Decoder.
 
   Definition decode : list N -> res (list N) := decode_gen dec_block.
-  Definition decode_current : list N -> res (list N) := decode_gen dec_block_current.
 
   (* value of a block string (digits most significant first); used by the canonicity lemma *)
   Definition block_value (s : list N) : res N :=
